@@ -83,6 +83,36 @@ CLAIMS = {
   "content-type, status (the code argument), body; Redirect only for 300..308.",
   "Not decided: byte order, arbitrary underlying writers' behaviour, hijack semantics, sequences of calls as observed. Trusted: the underlying writer reports accepted byte counts.",
   "DESIGN.md section 5 C14"),
+ "C15": (
+  "structure / dominance checks of the Recovery closure and recovery function over SSA, must-dataflow for deferred aborts (shared with C04.3), constant audit of the redaction list with canonicalisation computed by the checker",
+  "Decides the structural conditions of panic containment: the recovery function is deferred first, before the handler, and calls recover() itself; it re-raises only under errors.Is(value, http.ErrAbortHandler) "
+  "and re-raises the recovered value; the user recovery function runs only under !Written() && !connIsBroken(value); every managed write transaction (Updates, View and the single-operation helpers) aborts on "
+  "every exit including panic, so the writer lock is released; the redaction list contains the six credential headers and the comparison with dumped header names is capitalisation-insensitive (EqualFold, or a "
+  "canonicalised lookup against entries that are all in canonical form), the raw header line being written only when the comparison failed.",
+  "Not decided: behaviour for every panic value / response progress as observed; log content beyond the redaction decision.",
+  "DESIGN.md section 5 C15"),
+ "C18": (
+  "constant-table audit (CIDR literals parsed by the checker against the IANA special-purpose registries), AST rule over return statements, call/structure checks of the iterators",
+  "Decides: every default trusted/blacklisted CIDR literal lies inside a registered special-purpose block (no globally routable unicast space is trusted by default); every return of every ClientIP method is an error "
+  "or an address coming from that strategy's iterator/parser/delegate (never a fabricated fallback); rightmost strategies use only the backward iterator (lines last-to-first, split from the right with LastIndex), the "
+  "forward iterator only under Take(limit) in the leftmost strategy; trusted count selects index count-1; single-header takes the last instance; defaults are only the fallback argument of orSlice.",
+  "Not decided: parsing of every header content, spoof-resistance as observed, panics on arbitrary input; block-level membership only (carve-outs inside special blocks not chased). Trusted: the registry table embedded in the checker.",
+  "DESIGN.md section 5 C18"),
+ "C19": (
+  "who-writes enumeration per field with guard-set (dominating facts) pairing, nil-test dominance for function-typed option arguments, dynamic-comparability check before interface-keyed map updates",
+  "Decides the invariants behind 'a route carries exactly the options it was created with': enabling either trailing-slash mode disables the other at the store, on the same object; NewRoute inherits flags, resolver, "
+  "middleware, parameter count and host split before applying options; resolver fields are never assigned nil, the accessor maps the sentinel to nil and Context.ClientIP picks the route's resolver exactly when a route "
+  "is set (special handlers see no route: C11.1 repeated); nil handlers/middleware/routes are rejected with ErrInvalidConfig/ErrInvalidRoute before being stored; annotation keys are tested non-nil and dynamically comparable "
+  "before the map insert; Hostname/Path/ParamsLen/Annotation accessors read the stored values.",
+  "Not decided: last-one-wins for arbitrary option sequences beyond these invariants; user-supplied resolvers.",
+  "DESIGN.md section 5 C19"),
+ "C20": (
+  "path-set counting of emissions over the Logger closure, interval algebra over the guards of level(), guard-set checks for the message fallback, call whitelist",
+  "Decides: no record before the handler and exactly one on every path after it; level() compares the status only with constants and its extracted interval map is 2xx->INFO, 3xx->DEBUG, 4xx->WARN, 5xx->ERROR; the "
+  "record's level is level(recorded status); Location is read only at DEBUG; message = resolver address / remote address (ErrNoClientIPResolver) / 'unknown'; status, method, host, path attributes come from the matching "
+  "accessors after the handler; the closure has no recover/defer and calls only read-only accessors; Recovery is registered outside Logger; special handlers see no route (C11.1 repeated) so the router-wide resolver is used there.",
+  "Not decided: record content for every handler behaviour as observed; latency; what the slog.Handler does.",
+  "DESIGN.md section 5 C20"),
 }
 
 NOT_APPLICABLE = {
